@@ -1468,6 +1468,9 @@ def run(ctx: common.Ctx):
         "ConstructorConvention values in the correspondence are str",
         "process histories: a builder is not modified after its first create() (same-builder reuse is shared state by design); "
         "a builder that raised is dropped; the language map visits the sections in configuration order (the code iterates a set)",
+        "list leaves are values in the model; the code merges them by reference (the configuration's list IS the source's list object): "
+        "sound while nothing mutates a list in place - checked by re-reading every list-valued key and every caller-owned override after "
+        "identifiers were stropped in every language and a template was rendered",
         "YAML syntax (scanner/parser/composer, `<<` merge keys) is PyYAML's; the model starts at the mapping nodes with their "
         "repeated keys, aliases are compared on the loaded object graph",
     ]
